@@ -8,7 +8,10 @@ The theorems below are about the model `Model/Conc.lean` instantiated with the p
 description `Gen.Atomics.proto` that the translator regenerates from `impl Kind for Arc` in
 `/repo/src/smart.rs`.  They hold for every ceiling `ceil`, every number of threads, every
 initial distribution `hs` of handles (`1 ≤ hs.sum ≤ ceil + 1`), every schedule, every choice
-of (stale) message read by a relaxed `load`, every spurious CAS failure and every program.
+of (stale) message read by a relaxed `load`, every spurious CAS failure and every program,
+including programs in which a handle is used BY REFERENCE from other threads
+(`Label.borrow`/`unborrow`: scoped threads or `Arc<HipStr>` sharing `&handle`; the borrowers may
+`read`/`clone`/`count`, the lender keeps the handle until the references are back).
 
 The first block are the NAMED side conditions on the generated description, proved by
 `decide`: these are the obligations that a weakened source breaks by name
@@ -64,6 +67,16 @@ theorem no_plain_store :
     noPlainStore Atomics.decr = true ∧ noPlainStore Atomics.incr = true ∧
     readOnly Atomics.isUnique = true ∧ readOnly Atomics.get = true := by decide
 
+/-- The source sites of plain stores to the count, per method: none.  (When this breaks, the
+left-hand side evaluates to the offending `file:line`s; `conc_driver`'s `obligations` command
+prints them as `plain_store_sites=…`.) -/
+theorem plain_store_sites :
+    Atomics.rowSites.map (fun p => (p.1, storeSites
+      (match p.1 with
+        | "decr" => Atomics.decr | "incr" => Atomics.incr
+        | "isUnique" => Atomics.isUnique | _ => Atomics.get) p.2)) =
+    [("decr", []), ("incr", []), ("get", []), ("isUnique", [])] := by decide
+
 /-- The generated description satisfies every side condition, for every ceiling. -/
 theorem gen_ok (ceil : Nat) : ProtoOk (cfg ceil) :=
   { decr_is_rmw := decr_is_rmw
@@ -84,21 +97,40 @@ theorem count_tracks {ceil : Nat} {hs : List Nat} {s : State} (hr : Reachable (c
     (h1 : 1 ≤ total s) : s.last.val + 1 = total s ∧ s.last.val ≤ ceil :=
   count_tracks_of (gen_ok ceil).shapeOk hr h1
 
-/-- `J`: a thread that holds a handle can never read a stale `0` from the count: every message
-it is still allowed to read, except the last one, is `≥ 1`. -/
+/-- `J`: a thread that holds a handle which is not lent out can never read a stale `0` from the
+count: every message it is still allowed to read, except the last one, is `≥ 1`.  (Needs
+`incr_is_rmw`: a non-atomic increment leaves a stale `0` readable.) -/
 theorem J {ceil : Nat} {hs : List Nat} {s : State} (hr : Reachable (cfg ceil) hs s)
     {t : Nat} {th : Thread} (ht : s.thr[t]? = some th) (ho : 1 ≤ owned th)
+    (hnp : pinned s t = false)
     {i : Nat} {m : Msg} (hi : s.hist[i]? = some m) (hc : th.coh ≤ i) : 1 ≤ m.val :=
-  J_of (gen_ok ceil).shapeOk hr ht ho hi hc
+  J_of (gen_ok ceil).shapeOk hr ht ho hnp hi hc
+
+/-- `J` for a lent handle: a stale `0` is out of reach of the lender itself or of one of the
+borrowers, whose coherence index is joined into the lender's when the reference comes back. -/
+theorem J_lent {ceil : Nat} {hs : List Nat} {s : State} (hr : Reachable (cfg ceil) hs s)
+    {i : Nat} {m : Msg} (hi : s.hist[i]? = some m) (hz : m.val = 0)
+    {t : Nat} {th : Thread} (ht : s.thr[t]? = some th) (ho : 1 ≤ owned th) :
+    i < th.coh ∨ ∃ (w : Nat) (wh : Thread), s.thr[w]? = some wh ∧ t ∈ wh.refs ∧ i < wh.coh :=
+  J_lent_of (gen_ok ceil).shapeOk hr hi hz ht ho
+
+/-- A shared reference to a handle never dangles: while it is out its lender still holds a
+handle and the buffer has not been freed. -/
+theorem lent_alive {ceil : Nat} {hs : List Nat} {s : State} (hr : Reachable (cfg ceil) hs s)
+    {w : Nat} {wh : Thread} (hw : s.thr[w]? = some wh) {u : Nat} (hu : u ∈ wh.refs) :
+    (∃ uh, s.thr[u]? = some uh ∧ 1 ≤ uh.handles) ∧ s.freed = 0 :=
+  lent_alive_of (gen_ok ceil).shapeOk hr hw hu
 
 /-- When `is_unique` is about to return `true` to `as_mut`/`try_unwrap` (even after a relaxed,
-possibly stale load), exactly one handle to the buffer exists: the caller's. -/
+possibly stale load), exactly one handle to the buffer exists: the caller's, and no shared
+reference to any handle is out. -/
 theorem unique_sound {ceil : Nat} {hs : List Nat} {s : State} (hr : Reachable (cfg ceil) hs s)
     {t : Nat} {th : Thread} (ht : s.thr[t]? = some th)
     {k : Kont} {code : List AStep} {old : Nat} (hpc : th.pc = some ⟨k, code, old⟩)
     (hk : k = .mutate ∨ k = .unwrap) (hret : localRet code = some (.bool true)) :
     total s = 1 ∧ th.handles = 1 ∧ s.freed = 0 ∧
-      ∀ (u : Nat) uh, u ≠ t → s.thr[u]? = some uh → owned uh = 0 :=
+      (∀ (u : Nat) uh, u ≠ t → s.thr[u]? = some uh → owned uh = 0) ∧
+      (∀ (u : Nat) uh, s.thr[u]? = some uh → uh.refs = []) :=
   unique_sound_of (gen_ok ceil).shapeOk hr ht hpc hk hret
 
 /-- The box is freed at most once (no double free), under every schedule. -/
@@ -115,18 +147,19 @@ theorem all_dropped_freed {ceil : Nat} {hs : List Nat} {s : State}
 
 /-! ## Happens-before -/
 
-/-- `K`: the payload accesses of a thread that no longer holds a handle are covered by the
+/-- `K`: the payload accesses of a thread that no longer holds a handle or a reference are covered by the
 release view of the count's last message (it gave its handles up through `drop`, a release
 RMW, and every later modification is an RMW that continues the release sequence), or are
-known to a thread that still holds a handle (it gave its last handle away with `send`). -/
+known to a thread that still holds a handle (it gave its last handle away with `send`, or
+gave a reference back to its lender). -/
 theorem K {ceil : Nat} {hs : List Nat} {s : State} (hr : Reachable (cfg ceil) hs s)
     (hf : s.freed = 0) {u : Nat} {uh : Thread} (hu : s.thr[u]? = some uh) (ho : owned uh = 0)
-    (hx : excl uh = false) :
+    (hrf : uh.refs = []) (hx : excl uh = false) :
     vat s.acc u ≤ vat s.last.rel u ∨
     ∃ (t : Nat) (th : Thread), s.thr[t]? = some th ∧ 1 ≤ owned th ∧ vat s.acc u ≤ vat th.view u :=
-  K_of (gen_ok ceil) hr hf hu ho hx
+  K_of (gen_ok ceil) hr hf hu ho hrf hx
 
-/-- No data race on the payload: every read through a handle, every write granted by
+/-- No data race on the payload: every read through a handle or a borrowed reference, every write granted by
 `as_mut`, every deep copy and the final free are ordered by happens-before with every
 conflicting access, under every schedule and every stale-read choice. -/
 theorem race_free {ceil : Nat} {hs : List Nat} {s : State} (hr : Reachable (cfg ceil) hs s) :
@@ -141,7 +174,7 @@ theorem no_access_after_free {ceil : Nat} {hs : List Nat} {s : State}
       (s.freed = 1 → ∀ (t : Nat) th, s.thr[t]? = some th → owned th = 0 ∧ excl th = false) :=
   no_access_after_free_of (gen_ok ceil) hr
 
-/-- A read through a handle returns the current content of the payload, and every write ever
+/-- A read through a handle or a borrowed reference returns the current content of the payload, and every write ever
 made to it (by a former unique owner) happens-before that read. -/
 theorem reads_see_last_write {ceil : Nat} {hs : List Nat} {s s' : State}
     (hr : Reachable (cfg ceil) hs s) {t : Nat} (hstep : step (cfg ceil) s (.start t .read) = some s') :
@@ -180,6 +213,28 @@ example : (run { ceil := 10, proto := { Atomics.proto with decr :=
       [.rmwSub 1 .relaxed, .branch .eq (.lit 0) [.fence .acquire] .overflow [] .done] } }
     (init [1, 1]) schedA).map (·.race) = some true := by
   decide
+
+/-- By-reference use: thread 0 lends its only handle to threads 1 and 2, which both clone through
+the reference (the second clone reads the count STALE and its CAS fails once), thread 1 drops its
+clone, the references come back, thread 0 is refused the mutation (two handles), drops, and
+thread 2's drop frees: three handles were counted, one free, no race. -/
+def schedRef : List Label :=
+  [.borrow 1 0, .borrow 2 0,
+   .start 1 .clone, .micro 1 0, .micro 1 0, .micro 1 0,
+   .start 2 .clone, .micro 2 0, .micro 2 2, .micro 2 0, .micro 2 0,
+   .start 1 .drop, .micro 1 0, .micro 1 0,
+   .unborrow 1 0, .unborrow 2 0,
+   .start 0 .mutate, .micro 0 3, .micro 0 0,
+   .start 0 .drop, .micro 0 0, .micro 0 0,
+   .start 2 .drop, .micro 2 0, .micro 2 0, .micro 2 0]
+
+example : (run (cfg 10) (init [1, 0, 0]) schedRef).map
+    (fun s => (s.freed, s.race, s.uaf, total s, s.thr.map (·.res))) =
+    some (1, false, false, 0, [[0, 0], [0, 0], [0, 1]]) := by
+  decide
+
+/-- While the references are out the lender cannot drop (the step is not enabled). -/
+example : run (cfg 10) (init [1, 0]) [.borrow 1 0, .start 0 .drop] = none := by decide
 
 /-- Reachable states exist for every admissible initial distribution. -/
 example : Reachable (cfg 10) [2, 0, 1] (init [2, 0, 1]) := ⟨by decide, by decide, [], rfl⟩
